@@ -485,6 +485,23 @@ theorem list_contains_index_structural (le : LeafKind → List Nat → List Nat 
   rw [listContains_spec, listIndex_spec, hc]
   exact ⟨rfl, rfl⟩
 
+/-- **`list_vtable_wiring`** — the element functions a list is given
+    (`Lowerer::call_runtime`, regenerated: the vtable written for a type
+    parameter of a runtime function, field by field of `struct VTable`): the
+    `eq_fn` of the elements is ALWAYS the address of the generated equality
+    function of the element type (`::generated::eq_<type_id>`, the `eqTy` of
+    `list_eq_structural`) — not chosen under any condition; the element size
+    and alignment are `layout_of`'s (the `L.size` of `list_eq_structural`);
+    `clone_fn` / `drop_fn` are the generated clone / drop functions exactly
+    when `needs_clone` / `needs_drop` say so (T5 / T7), null otherwise. -/
+theorem list_vtable_wiring :
+    vtableSlot vtableFields vtableWrites .eqFn = some (.generated .eq none) ∧
+      vtableSlot vtableFields vtableWrites .size = some .layoutSize ∧
+      vtableSlot vtableFields vtableWrites .align = some .layoutAlign ∧
+      vtableSlot vtableFields vtableWrites .cloneFn = some (.generated .clone (some .needsClone)) ∧
+      vtableSlot vtableFields vtableWrites .dropFn = some (.generated .drop (some .needsDrop)) := by
+  decide
+
 /-- **`bytewise_list_comparison_refuted`** — why the elements must go through
     `eq_fn`: two one-element lists of `Option[u32]`-shaped values (`enum {
     V0(u32), V1 }`, 8 bytes) both holding `V1` — the same value — whose element
